@@ -17,6 +17,7 @@ import (
 	"strconv"
 	"strings"
 	"sync"
+	"time"
 
 	"github.com/lindb/lindb/kv"
 	"github.com/lindb/lindb/kv/table"
@@ -105,6 +106,12 @@ type env struct {
 	big       bool // concurrent bulk case: file contents are not sent to the model
 	faults    bool // fault region: transient open failures of one source file during a rollup job
 	restarts  bool // restart region: a crashed rollup run is followed by 1-3 restarts, then rollup again
+	zoneYear  int  // zone region: the year the zone's transitions were taken for
+	// commit-fault witness: the commit of the first record of this kind fails (manifest write error)
+	failKind  byte
+	onceKey   string
+	failedAt  int
+	failedRec *rec
 	armFault  *fkey
 	attempted map[fkey]bool // source files a rollup job may have opened already (reader cached)
 	drainKey  string
@@ -276,7 +283,16 @@ func (e *env) onCommit(storePath, family string, _ version.FamilyID, logs []vers
 			e.imaged = true
 		}
 	}
-	e.cur = append(e.cur, e.canon(storePath, family, logs))
+	r := e.canon(storePath, family, logs)
+	if e.failKind != 0 && r.kind == e.failKind && e.failedAt < 0 {
+		// this commit is going to fail: arm the manifest writer of that store; the record is not committed
+		manifestFault.Lock()
+		manifestFault.dir, manifestFault.armed = storePath, true
+		manifestFault.Unlock()
+		e.failedAt, e.failedRec = len(e.cur), &r
+		return
+	}
+	e.cur = append(e.cur, r)
 }
 
 func sortTrips(t [][3]int64) {
@@ -478,6 +494,10 @@ func (e *env) opCfg() {
 	ds := make([]string, len(e.days))
 	for i := range e.days {
 		ds[i] = strconv.FormatInt(e.days[i].dayNo, 10)
+	}
+	if curZone != nil {
+		e.c.Op(fmt.Sprintf("cfgz %d %s %s | %s | %s", e.src, strings.Join(ds, ","), strings.Join(hs, ","), strings.Join(ts, " "), curZone.txt), "ok")
+		return
 	}
 	e.c.Op(fmt.Sprintf("cfg %d %s %s | %s", e.src, strings.Join(ds, ","), strings.Join(hs, ","), strings.Join(ts, " ")), "ok")
 }
@@ -770,7 +790,11 @@ func (e *env) checkOnce() {
 	for k, per := range e.contributions() {
 		for iv, n := range per {
 			if n > 1 {
-				e.c.Fail("merged-twice", fmt.Sprintf("source file %d.%d was merged %d times into target interval %d", k.h, k.file, n, iv))
+				key := "merged-twice"
+				if e.onceKey != "" {
+					key = e.onceKey
+				}
+				e.c.Fail(key, fmt.Sprintf("source file %d.%d was merged %d times into target interval %d", k.h, k.file, n, iv))
 			}
 		}
 	}
@@ -809,8 +833,14 @@ func (e *env) checkTargetLocation(r rec) {
 				segT := tc.CalcSegmentTime(ts)
 				fam := tc.CalcFamily(ts, segT)
 				if tc.GetSegment(ts) != r.pairs[0] || strconv.Itoa(fam) != r.pairs[1] {
-					e.c.Fail("target-location", fmt.Sprintf("timestamp %d of file %d.%d belongs to %s/%d of interval %d but was merged into %s/%s",
-						ts, k.h, k.file, tc.GetSegment(ts), fam, r.iv, r.pairs[0], r.pairs[1]))
+					e.c.Fail("target-location", fmt.Sprintf("timestamp %d of file %d.%d belongs to %s/%d of interval %d but was merged into %s/%s%s",
+						ts, k.h, k.file, tc.GetSegment(ts), fam, r.iv, r.pairs[0], r.pairs[1], zoneSuffix()))
+					return
+				}
+				// the same judged by the wall clock alone (no lindb calculator)
+				if ref := refPlace(ts, r.iv); ref.segName != r.pairs[0] || strconv.Itoa(ref.fam) != r.pairs[1] {
+					e.c.Fail("target-location-vs-wall-clock", fmt.Sprintf("timestamp %d (%s) of file %d.%d lies in segment %s, family %d of interval %d (family window [%d,%d]) but was merged into %s/%s%s",
+						ts, time.UnixMilli(ts).In(time.Local).Format("2006-01-02T15:04:05Z07:00"), k.h, k.file, ref.segName, ref.fam, r.iv, ref.famStart, ref.famEnd, r.pairs[0], r.pairs[1], zoneSuffix()))
 					return
 				}
 			}
@@ -839,8 +869,16 @@ func (e *env) expected(tgt int64) map[string]map[viewKey]*viewVal {
 				slot := tc.CalcSlot(ts, famStart, tgt)
 				// "falls inside that target slot": the slot's time window, counted from the family start
 				if w := famStart + int64(slot)*tgt; !(w <= ts && ts < w+tgt && famStart <= ts && ts <= tc.CalcFamilyEndTime(famStart)) {
-					e.c.Fail("slot-window", fmt.Sprintf("interval %d: timestamp %d gets family start %d slot %d, whose window [%d,%d) does not contain it", tgt, ts, famStart, slot, w, w+tgt))
+					e.c.Fail("slot-window", fmt.Sprintf("interval %d: timestamp %d gets family start %d slot %d, whose window [%d,%d) does not contain it%s", tgt, ts, famStart, slot, w, w+tgt, zoneSuffix()))
 				}
+				// the expectation itself is taken from the wall clock alone (segment / family / slot that
+				// contain the timestamp), not from lindb's calculators
+				ref := refPlace(ts, tgt)
+				if ref.segT != segT || ref.fam != fam || ref.famStart != famStart || ref.slot != int64(slot) {
+					e.c.Fail("target-calculator-vs-wall-clock", fmt.Sprintf("interval %d: timestamp %d (%s) lies in segment %d family %d (start %d) slot %d by the wall clock; the target calculator gives segment %d family %d (start %d) slot %d%s",
+						tgt, ts, time.UnixMilli(ts).In(time.Local).Format("2006-01-02T15:04:05Z07:00"), ref.segT, ref.fam, ref.famStart, ref.slot, segT, fam, famStart, slot, zoneSuffix()))
+				}
+				segT, fam, slot = ref.segT, ref.fam, int(ref.slot)
 				g := fmt.Sprintf("%d/%d", segT, fam)
 				if out[g] == nil {
 					out[g] = map[viewKey]*viewVal{}
@@ -905,7 +943,7 @@ func (e *env) checkAggregates(tgt int64, got map[string]map[viewKey]*viewVal) {
 		}
 	}
 	if bad > 0 {
-		e.c.Fail(e.failKey, fmt.Sprintf("interval %d -> %d: %d of %d target cells differ from the aggregate of the source slots inside them; first: %s", e.src, tgt, bad, total, first))
+		e.c.Fail(e.failKey, fmt.Sprintf("interval %d -> %d: %d of %d target cells differ from the aggregate of the source slots inside them; first: %s%s", e.src, tgt, bad, total, first, zoneSuffix()))
 	}
 }
 
@@ -936,7 +974,10 @@ func daysFromCivil(y, m, d int64) int64 {
 }
 
 func pickDay(rng *rand.Rand) (int64, string) {
-	y := int64(2015 + rng.Intn(21))
+	return pickDayOfYear(rng, int64(2015+rng.Intn(21)))
+}
+
+func pickDayOfYear(rng *rand.Rand, y int64) (int64, string) {
 	m := int64(1 + rng.Intn(12))
 	next := daysFromCivil(y, m+1, 1)
 	if m == 12 {
@@ -949,7 +990,13 @@ func pickDay(rng *rand.Rand) (int64, string) {
 	case 1:
 		return next - 1, "day-last-of-month"
 	case 2:
-		return daysFromCivil(2016+4*int64(rng.Intn(4)), 2, 29), "day-feb29"
+		if y%4 == 0 {
+			return daysFromCivil(y, 2, 29), "day-feb29"
+		}
+		if curZone == nil {
+			return daysFromCivil(2016+4*int64(rng.Intn(4)), 2, 29), "day-feb29"
+		}
+		return daysFromCivil(y, 2, 28), "day-feb28"
 	case 3:
 		return daysFromCivil(y, 12, 31), "day-dec31"
 	}
@@ -1079,13 +1126,19 @@ func (e *env) setDay(dayNo int64) error {
 
 // addDay adds one more source store (day segment).
 func (e *env) addDay(dayNo int64) error {
-	seg := timeutil.Interval(e.src).Calculator().GetSegment(dayNo * day)
+	// dayNo is the wall-clock day number in time.Local (UTC unless the case is a zone case); the
+	// segment name is formatted from an instant inside that local day
+	seg := timeutil.Interval(e.src).Calculator().GetSegment(localMidnight(dayNo) + 12*hour)
 	segT, err := timeutil.Interval(e.src).Calculator().ParseSegmentTime(seg)
 	if err != nil {
 		return err
 	}
-	if segT != dayNo*day {
-		return fmt.Errorf("segment %s parses to %d, expected %d (TZ must be UTC)", seg, segT, dayNo*day)
+	if want := localMidnight(dayNo); segT != want {
+		if curZone == nil {
+			return fmt.Errorf("segment %s parses to %d, expected %d (TZ must be UTC)", seg, segT, want)
+		}
+		// C04 needs the source store's segment time to be the start of its day
+		e.c.Fail("source-segment-time-vs-wall-clock", fmt.Sprintf("day store %s: ParseSegmentTime gives %d, the local midnight of that day is %d%s", seg, segT, want, zoneSuffix()))
 	}
 	e.days = append(e.days, dayInfo{dayNo: dayNo, seg: seg, segT: segT})
 	return nil
@@ -1175,6 +1228,9 @@ func (e *env) storeCase() error {
 		return fmt.Errorf("generated interval list rejected by DatabaseOption.Validate: %v", err)
 	}
 	d, region := pickDay(rng)
+	if curZone != nil {
+		d, region = pickZoneDay(rng, e.zoneYear)
+	}
 	c.Branch(region)
 	if err := e.setDay(d); err != nil {
 		return err
@@ -1190,7 +1246,7 @@ func (e *env) storeCase() error {
 			for _, x := range e.days {
 				dup = dup || x.dayNo == cand
 			}
-			if dup || tcm.CalcSegmentTime(cand*day) != tcm.CalcSegmentTime(d*day) {
+			if dup || tcm.CalcSegmentTime(localMidnight(cand)+12*hour) != tcm.CalcSegmentTime(localMidnight(d)+12*hour) {
 				continue
 			}
 			if err := e.addDay(cand); err != nil {
@@ -1200,23 +1256,47 @@ func (e *env) storeCase() error {
 		c.Branch(fmt.Sprintf("multi-day-%d", len(e.days)))
 	}
 	hs := map[int]bool{}
-	pick := func() int {
+	// hour families of a day: 0..23; in a zone case a local day has 23, 24 or 25 of them
+	nhOf := func(di int) int {
+		if curZone == nil {
+			return 24
+		}
+		n := hoursOfDay(e.days[di].dayNo)
+		if n != 24 {
+			c.Branch(fmt.Sprintf("zone-source-day-of-%d-hours", n))
+		}
+		return n
+	}
+	pickOf := func(di int) int {
+		nhd := nhOf(di)
 		switch rng.Intn(4) {
 		case 0:
 			return 0
 		case 1:
-			return 23
+			return nhd - 1
 		}
-		return rng.Intn(24)
+		return rng.Intn(nhd)
 	}
+	pick := func() int { return pickOf(0) }
 	if e.multi {
 		// mostly the SAME hour in every day store: the source families then carry equal family ids
 		h0 := pick()
 		for di := range e.days {
-			hs[di*100+h0] = true
-			if rng.Intn(3) == 0 {
-				hs[di*100+pick()] = true
+			hd := h0
+			if hd >= nhOf(di) {
+				hd = nhOf(di) - 1
 			}
+			hs[di*100+hd] = true
+			if rng.Intn(3) == 0 {
+				hs[di*100+pickOf(di)] = true
+			}
+		}
+	} else if curZone != nil {
+		// the first / last hour of the local day is always among the source families (where a shifted
+		// midnight shows), plus 0-2 more
+		hs[[]int{0, nhOf(0) - 1}[rng.Intn(2)]] = true
+		for n := rng.Intn(3); n > 0; n-- {
+			hs[pick()] = true
 		}
 	} else {
 		nh := 1 + rng.Intn(3)
@@ -1567,6 +1647,15 @@ func (a area) Run(c *core.Ctx) error {
 					c.Fail("panic", fmt.Sprintf("case %d panicked: %v", i, r))
 				}
 			}()
+			if !conc && i > 4 && (i%8 == 2 || i%16 == 15 || i%16 == 8) {
+				// zone region: the same store histories with time.Local = a named zone
+				e.zoneYear = 2015 + rng.Intn(21)
+				leave, ok := enterZone(c, zoneNames[rng.Intn(len(zoneNames))], e.zoneYear)
+				defer leave()
+				if ok {
+					c.Branch("zone-store-case")
+				}
+			}
 			switch {
 			case conc:
 				err = e.concCase(big)
@@ -1577,6 +1666,10 @@ func (a area) Run(c *core.Ctx) error {
 				err = e.storeCase()
 			case i == 4:
 				err = e.compactionWitness()
+			case i == 12:
+				err = e.commitFaultWitness('S', "source-commit-failure-merges-twice")
+			case i == 20:
+				err = e.commitFaultWitness('T', "target-commit-failure-loses-file")
 			case i%8 == 4:
 				e.faults = true
 				err = e.storeCase()
